@@ -34,10 +34,17 @@ class Instr:
 
 
 # ------------------------------------------------------------------ queues / events with an effect log
+# (added) a harness may name the entries itself (e.g. by object identity, when it must not assume that every entry has an
+# event of its own): `ENTRY_NAMER[0] = f` with `f(item) -> name`; None (default): the event's name identifies the entry
+ENTRY_NAMER = [None]
+
+
 def _entry_id(item):
     """entries of the client are lists [request, Event, reply]; the event's name identifies the entry"""
     if item is None:
         return None
+    if ENTRY_NAMER[0] is not None:
+        return ENTRY_NAMER[0](item)
     try:
         return item[1].name
     except Exception:
@@ -470,6 +477,8 @@ class FakeConn:
             self.closed_at = t
 
     def _emit(self, ready_at, line, re, setup=False):
+        # (added) log entry: what the peer sends and from when on it is readable (whether or not it is ever read)
+        self.instr.ev('c.emit', self.index, self.seq, line, ready_at, re, setup)
         self.inbox.append([ready_at, self.seq, line, len(self.peer.sent), re, setup])
         self.seq += 1
         self.inbox.sort(key=lambda x: (x[0], x[1]))
